@@ -1,6 +1,7 @@
 /- line-protocol handlers for the C10 models (Model/PackedDeltas.lean, Model/Iup.lean) -/
 import FontVerif.Model.PackedDeltas
 import FontVerif.Model.Iup
+import FontVerif.Model.GvarLayout
 namespace FontVerif.Drv.C10
 open FontVerif FontVerif.PackedDeltas
 
@@ -88,9 +89,75 @@ def handleIup (cmd : String) (args : List String) : Option String :=
     | _, _, _, _, _ => none
   | _, _ => none
 
+def showPts (l : List (Int × Int)) : String :=
+  if l.isEmpty then "-" else " ".intercalate (l.map fun (x, y) => s!"{x},{y}")
+
+def parseBools? (xs : List String) : Option (List Bool) :=
+  xs.mapM fun s => if s = "1" then some true else if s = "0" then some false else none
+
+/-- reduce a fraction with positive denominator to lowest terms -/
+def showFrac (f : Int × Int) : String :=
+  let g := Int.gcd f.1 f.2
+  if g = 0 then s!"{f.1}/{f.2}" else s!"{f.1 / g}/{f.2 / g}"
+
+open FontVerif.Iup in
+/-- `iup.read | <ends…> | <points x,y …> | <has 0/1 …> | <working points, Fixed bits x,y …>`
+    `iup.infer | <coords x,y …> | <deltas x,y …> | <kept 0/1 …>`  (one contour) -/
+def handleReader (cmd : String) (args : List String) : Option String :=
+  match cmd, splitBar args with
+  | "iup.read", [[], ends, pts, has, out] =>
+    match parseNats? (ends.filter (· ≠ "-")), (pts.filter (· ≠ "-")).mapM parsePt?,
+        parseBools? (has.filter (· ≠ "-")), (out.filter (· ≠ "-")).mapM parsePt? with
+    | some ends, some pts, some has, some out =>
+      if pts.length ≠ has.length ∨ pts.length ≠ out.length then none else
+      some (match readerInterpolate pts has ends out with
+        | none => "none"
+        | some r => showPts r)
+    | _, _, _, _ => none
+  | "iup.infer", [[], cs, ds, keep] =>
+    match (cs.filter (· ≠ "-")).mapM parsePt?, (ds.filter (· ≠ "-")).mapM parsePt?,
+        parseBools? (keep.filter (· ≠ "-")) with
+    | some cs, some ds, some keep =>
+      if cs.length ≠ ds.length ∨ keep.length ≠ ds.length then none else
+      some (if ds.isEmpty then "-" else " ".intercalate ((List.range ds.length).map fun k =>
+        let i := inferSpec cs ds keep k
+        s!"{showFrac i.1},{showFrac i.2}"))
+    | _, _, _ => none
+  | _, _ => none
+
+open FontVerif.GvarLayout in
+/-- `gv.write <blob hex …>`  →  `L|S | stored offsets | data hex`
+    `gv.range <long 0/1> <data array offset> <table length> <gid> | <stored offsets …>` -/
+def handleGvar (cmd : String) (args : List String) : Option String :=
+  match cmd with
+  | "gv.write" =>
+    (args.mapM parseHex?).map fun blobs =>
+      let long := useLong blobs
+      let dao := dataArrayOffset long blobs.length
+      s!"{if long then "L" else "S"} {dao} | {joinNats (storedOffsets long blobs)} | {toHex (writeData long dao blobs)}"
+  | "gv.range" =>
+    match splitBar args with
+    | [[l, dao, tl, gid], offs] =>
+      match parseNat? l, parseNat? dao, parseNat? tl, parseNat? gid, parseNats? (offs.filter (· ≠ "-")) with
+      | some l, some dao, some tl, some gid, some offs =>
+        if l > 1 then none else
+        let long := l == 1
+        some (match dataRange long dao offs gid with
+          | none => "err"
+          | some (s, e) => if s ≥ e then "none" else if e ≤ tl then s!"{s} {e}" else "err")
+      | _, _, _, _, _ => none
+    | _ => none
+  | _ => none
+
 def handle (cmd : String) (args : List String) : Option String :=
   match handlePacked cmd args with
   | some r => some r
-  | none => handleIup cmd args
+  | none =>
+    match handleIup cmd args with
+    | some r => some r
+    | none =>
+      match handleReader cmd args with
+      | some r => some r
+      | none => handleGvar cmd args
 
 end FontVerif.Drv.C10
